@@ -233,7 +233,11 @@ RandomAccessIterator partition(RandomAccessIterator first,
     // abort();
     return s.first;
   }
-  return std::partition(s.rfirst, s.rlast, pred);
+  // Everything left of the leftover span is a finished low block (all true)
+  // and everything right of it a finished high block (all false) only if the
+  // span reaches the point where the low and the high claims met.
+  return std::partition(std::min(s.rfirst, s.first),
+                        std::max(s.rlast, s.first), pred);
 }
 
 struct pair_dist {
